@@ -49,6 +49,15 @@ CHECKS["C07"] = dict(
     note="trusted: TLC; conservative reading (calls in a dirty state are not compared); independent Krige/SRF objects of the same library for the formula oracle (pinned by C05/C11)",
 )
 
+CHECKS["C20"] = dict(
+    technique="TLA+ alias-heap model of the Field storage discipline (Alias.tla) and entry-point matrix (AliasMatrix.tla) enumerated/model-checked with TLC; every enumerated cell / behaviour executed on the real code with sentinel arrays compared byte-wise",
+    text="TLC checks EarlierResultsStable / NoForeignWrite over all histories of generate / field-call / transform(store same|new|none, process) operations on the alias heap and enumerates the complete matrix "
+         "entry point x argument role x array layout (aliasing or converting) x option subset. Each cell is run against gstools with sentinel arrays (data, mask, memory between strided elements) compared byte-wise before/after; "
+         "each heap behaviour is replayed on SRF objects with and without mean/trend/normalizer comparing every array the caller holds after every step. The quantifier is a finite combinatorial matrix plus store/transform histories: enumerated completely.",
+    design_ref="DESIGN.md §4.5 (alias heap), §5 C20",
+    note="trusted: TLC; the entry table in harness/drivers/alias.py (entry points outside it - plotting, export - are not covered); byte-wise comparison as oracle",
+)
+
 ALL = ["C%02d" % i for i in range(1, 21)]
 
 
